@@ -388,3 +388,57 @@ def _equal_items(route: int, i: int, n: int) -> bool:
     except ValidationError as exc:
         return hold("path", exc.ref_path == want, lambda: "ref_path %r, expected %r" % (exc.ref_path, want))
     return hold("path", False, "invalid item accepted")
+
+
+@obligation(prop="C15", sites=("path",), encodes=ENC, budget={"quick": 200, "thorough": 400},
+            examples=({"route": 2, "i": 1, "n": 2, "typed": False, "by_validator": False, "nested": True},),
+            what="a list of configurations is given configuration OBJECTS (schema items / config-type items) one "
+                 "of which fails whole-configuration validation (required field never set, schema validator) by "
+                 "attribute / dotted / constructor / append: ValidationError whose path names items[i] and the field")
+def reject_path_config_objects(route: int, i: int, n: int, typed: bool, by_validator: bool, nested: bool) -> bool:
+    """
+    pre: 0 <= route <= 3 and 0 <= i < n <= 3
+    post: _
+    """
+    item = Schema()
+    item.name = StringField(default="n")
+    item.tls.port = IntField(required=True)
+    if by_validator:
+        item.tls._validators.append(_reject_low_port)
+    It = make_type_nt(item, "It") if typed else None
+    schema = Schema()
+    owner = schema.grp if nested else schema
+    owner.items = ListField(It or item, default=lambda: [])
+    objs = []
+    for k in range(n):
+        o = It() if typed else item()
+        o.name = "n" + str(k)
+        if k != i:
+            o.tls.port = 8000 + k
+        elif by_validator:
+            o.tls.port = 1
+        objs.append(o)
+    prefix = "grp.items" if nested else "items"
+    want = (prefix + "[" + str(i) + "].tls") if by_validator else (prefix + "[" + str(i) + "].tls.port")
+    cfg = None
+    try:
+        if route == 2:
+            schema(grp={"items": objs}) if nested else schema(items=objs)
+        else:
+            cfg = schema()
+            node = cfg.grp if nested else cfg
+            if route == 0:
+                node.items = objs
+            elif route == 1:
+                cfg[prefix] = objs
+            else:
+                for o in objs:
+                    node.items.append(o)
+    except ValidationError as exc:
+        return hold("path", exc.ref_path == want, lambda: "ref_path %r, expected %r" % (exc.ref_path, want))
+    return hold("path", False, "invalid item accepted")
+
+
+def _reject_low_port(cfg):
+    if cfg.port is not None and cfg.port < 1024:
+        raise ValueError("privileged port")
